@@ -49,6 +49,8 @@ PROPS = {
     "C07": sim("C07", 1000, 30000),
     "C17": sim("C17", 800, 20000),
     "C10": sim("C10", 500, 15000),
+    "C14": sim("C14", 500, 12000),
+    "C15": sim("C15", 300, 8000),
     "C11": node(["TestC11", "TestC11Sim"], 500, 15000),
     "C13": {
         "test": "TestC13", "corpus_test": "TestCorpusC13", "level": "fault_enumeration",
@@ -97,6 +99,8 @@ MANIFEST_TEXT = {
     "C11": {"technique": "model-based property testing: rapid-generated InstallSnapshot chunk sequences with AppendEntries/RequestVote probes against a full-log reference twin on one real node, plus monitors over generated cluster schedules",
             "level_text": "Inputs part: a seeded follower (C06 world), two sender snapshots with drawn labels, sizes and chunking, up to 8 requests over their chunks in any order with duplicates and lower/equal/higher terms, interleaved with AppendEntries and RequestVote probes; applied/commit index must not decrease, committed entries beyond the label must survive, every snapshot file that becomes visible must equal a sender snapshot exactly, and probes at or above the boundary must be answered like a reference-model twin that holds the full log. Schedules part: the same monitors in snapshot-heavy cluster campaigns with leader changes during transfers.",
             "level_note": "Trusted: the world generator, the twin model (below the boundary only 'rejected, or accepted in agreement with the sender' is required), the storage wrappers' byte tee. Chunks are always genuine (offset, bytes) pairs of a sender file."},
+    "C14": simtext("Snapshot-enabled cluster schedules in which generated nodes are killed immediately before or after the k-th storage operation from now (every wrapped operation of log, term/vote and snapshot storage is a candidate; evidence lists the operations and callers actually hit) and restarted over the directory image of that instant; NewRaft/Start must succeed, the test binary must survive (FATAL/panic are process deaths seen by the driver), the C01/C02/C06/C07 monitors must stay green and restarted nodes must reach the leader's applied sequence in the fault-free suffix."),
+    "C15": simtext("Bounded liveness in virtual time: after a generated fault prefix everything is healed and restarted; within 40 election timeouts (extended once by 160 before a miss is reported) exactly one leader, agreeing voters, an acknowledged fresh write, no pending configuration entry and identical applied sequences on all running members are required; a miss is reported with the leader-to-member stall cycle. Not a proof of 'eventually'."),
     "C07": simtext("Schedules biased to elections between differing logs; at the first sign of leadership of each (node, term) the node's stored log is compared with the set of entries ever observed committed or applied; truncations of committed entries are flagged at any time."),
     "C13": {
         "test": "TestC13", "corpus_test": "TestCorpusC13", "level": "fault_enumeration",
